@@ -3,7 +3,7 @@ Theorems: coq/props/C10.v over coq/card/Render.v.  Correspondence: edit historie
 assignments; render() text, bytes written by save(), get_toc() and the flags of every node after EVERY operation."""
 import cardgen as G
 
-WEIGHTS = {"add": 30, "vis": 16, "fold": 16, "plot": 7, "table": 7, "metrics": 4, "hyper": 2, "delete": 6, "dellist": 2,
+WEIGHTS = {"add": 30, "vis": 16, "fold": 16, "plot": 7, "table": 7, "metrics": 4, "hyper": 2, "modelplot": 3, "delete": 6, "dellist": 2,
            "select": 3, "chain": 3, "title": 9}
 MODE = {"toc": True, "render": True, "save": True, "nodes": True, "format": True}
 
